@@ -104,6 +104,18 @@ Theorem C01_number_automaton_from_source :
   /\ (forall s, In s ct_nstates)
   /\ (forall a b, ct_nstate_name a = ct_nstate_name b -> a = b).
 Proof. exact ConstsTie.number_automaton_from_source. Qed.
+(* the leaf parsers of null.rs, boolean.rs, string.rs (parse_hex4) and array.rs, EXECUTED by the translator on short
+   inputs against a stub of `Parser`, return what the model's leaf functions return on the same inputs: result,
+   fragment index, position and the whole code map (DESIGN.md section 4) *)
+Theorem C01_leaf_parsers_from_source :
+  src_leaf_null = ct_on (fun i => (0, i)) parse_null src_leaf_null
+  /\ src_leaf_bool = ct_on (fun x => (ct_b (fst x), snd x)) parse_bool src_leaf_bool
+  /\ src_leaf_hex4 = ct_on (fun h => (h, 0)) parse_hex4 src_leaf_hex4
+  /\ src_leaf_array_start = ct_on (fun x => (ct_b (fst x), snd x)) array_start src_leaf_array_start
+  /\ src_leaf_array_continue = ct_on (fun b => (ct_b b, 0)) (array_continue 0) src_leaf_array_continue
+  /\ ((30 <=? length src_leaf_null)%nat = true /\ (60 <=? length src_leaf_bool)%nat = true /\ (100 <=? length src_leaf_hex4)%nat = true
+      /\ (300 <=? length src_leaf_array_start)%nat = true /\ (200 <=? length src_leaf_array_continue)%nat = true).
+Proof. exact ConstsTie.leaf_parsers_from_source. Qed.
 
 Print Assumptions C01_str.
 Print Assumptions C01_slice.
@@ -123,3 +135,4 @@ Print Assumptions C01_control_from_source.
 Print Assumptions C01_surrogates_from_source.
 Print Assumptions C01_surrogate_pair_from_source.
 Print Assumptions C01_number_automaton_from_source.
+Print Assumptions C01_leaf_parsers_from_source.
